@@ -421,7 +421,10 @@ class Item:
         self.ghost(b, "\n" + payload)
 
     def d_R4(self, old, new, rule="R4"):
-        pat = r"\s*".join(re.escape(t) for t in re.findall(r"\w+|[^\w\s]", old))
+        # `$1`..`$9` in the target stand for a place expression (identifiers joined by `.`); the same placeholder in
+        # the replacement is filled with what was matched (the shim is applied to whatever vector the code names)
+        toks = re.findall(r"\$\d|\w+|[^\w\s]", old)
+        pat = r"\s*".join((r"(?P<v%s>[A-Za-z_][\w]*(?:\s*\.\s*[A-Za-z_]\w*)*)" % t[1]) if re.match(r"\$\d$", t) else re.escape(t) for t in toks)
         if re.match(r"\w", old):
             pat = r"\b" + pat
         if re.search(r"\w$", old):
@@ -432,7 +435,10 @@ class Item:
         if not hits:
             raise Undecided("LOST-ANCHOR: %s target `%s` not in %s" % (rule, old, self.where()))
         for h in hits:
-            self.rewrite(h.start(), h.end(), new, rule)
+            rep = new
+            for gk, gv in h.groupdict().items():
+                rep = rep.replace("$" + gk[1:], re.sub(r"\s+", "", gv))
+            self.rewrite(h.start(), h.end(), rep, rule)
 
     def d_R5(self):
         for mo in re.finditer(r"\bdebug_assert!\s*\(", self.m):
